@@ -16,6 +16,10 @@ BOUNDED = ("exploration", "bounded stand-in only")
 
 # property -> dict(category, text, note, technique, enabled)
 CHECKS_ALL = {
+    "C02": dict(category="exploration", enabled=True,
+                text="Bounded: (a) the REAL _get_columns_for_term of the pandas, narwhals and base materializers executed on numpy object arrays of sympy symbols, so `column == scale * product of factor columns` is an algebraic identity for all numeric values; exhaustive over all 120 shapes with k<=4 factors and widths 1..3 x scale {1,2.5} x {numpy,pandas}, names in Kronecker order with the first factor fastest; sparse branch on the same shapes; (b) end-to-end model_matrix on generated frames (rows 1..6, category/object/str dtypes, unsorted and unobserved levels) x every ordered tuple of <=3 factors from a pool incl. Python-expression factors x literal scalings x intercept on/off x rank on/off x outputs: every label parsed back and the column recomputed from the raw data.",
+                note="bounded stand-in (the mixed-radix induction of the Kronecker enumeration is out of the solvers' reach); symbolic columns make (a) value-independent; three genuine defects repaired (D7, M1, D11)",
+                technique="runtime contracts on the real functions with symbolic (sympy) column values and exhaustive shape enumeration (bounded stand-in of the contract family)"),
     "C03": dict(category="exploration", enabled=True,
                 text="Bounded: exact rational rank (sympy DomainMatrix) of the model matrix with and without rank reduction on fully crossed designs with replicates, for ALL term sets with <=3 terms (4-term sets on most type patterns) over <=3 factors (numeric or categorical with 1..3 levels), EVERY permutation of the terms, intercept present/absent: rank(X_on)==ncol(X_on) and colspace(X_on)==colspace(X_off). Thorough tier adds every built-in contrast, cluster_by, and 4-factor designs (SVD rank).",
                 note="bounded stand-in; the linear-algebra fact linking 'each (numeric set, categorical subset) atom covered once' to independence is argued in DESIGN.md, not mechanised; failures are only reported if they repeat on a second independent data set",
@@ -24,6 +28,14 @@ CHECKS_ALL = {
                 text="Bounded: runtime contract 'a spec replays the recorded encoding row by row' checked on the real library for 87 formula templates over every stateful/stateless built-in (no lag) x 10 kinds of follow-up frames (subsets, duplications, permutations, missing levels, sequences of follow-ups) x 4 replay routes incl. pickle. No deductive obligations yet for this property.",
                 note="bounded stand-in (labelled bounded, never counted as proved); rtol 1e-12 on replayed rows (BLAS may reorder dot products); follow-ups stay inside the training domain",
                 technique="runtime contracts on the real functions over enumerated (formula, training frame, follow-up) scopes (bounded stand-in of the contract family)"),
+    "C05": dict(category="other", enabled=True,
+                text="Hybrid. Deductive: the five entry points (sugar.model_matrix, SimpleFormula/StructuredFormula.get_model_matrix, ModelSpec.get_model_matrix, ModelSpecs.get_model_matrix) are verified against provenance contracts: each reduces to one materializer call on the same data, context, spec with exactly the caller's overrides, and the same drop-set object (quantifier-free obligations; a dropped argument is refuted with a model - this is how defect D9 was found). Bounded: 23 build routes per case (3 outputs x 7 entry points/materializers incl. narwhals on pandas and pyarrow) compared elementwise (rtol 1e-12) with equal column names; sparse dummy encoder vs indicator contract exhaustively for sequences of length <=3.",
+                note="the materializer call itself, registry dispatch and Structured._map are assumed contracts (provenance ghosts); numbers across outputs/materializers are bounded only",
+                technique="contract-based deductive verification of entry-point plumbing (pyvc VCs + z3, quantifier-free provenance ghosts) + runtime-contract bounded stand-in for cross-output/materializer agreement"),
+    "C08": dict(category="exploration", enabled=True,
+                text="Bounded (exhaustive over the finite dtype set): one frame per dtype that pandas 3.0.5 / pyarrow 25 produce for text, categorical and numeric data (object, str, string[python], string[pyarrow], large_string, category ordered/unordered with str/int categories, int8..64, uint8..64, float32/64, bool, nullable Int64/Float64/boolean) x outputs x {pandas, narwhals-on-pandas, narwhals-on-pyarrow}: text/categorical become indicator columns (sorted levels for text, declared order for category), numerics pass through unchanged, every cell numeric.",
+                note="bounded stand-in; kind inference depends on the dtype only (argued in DESIGN.md, not yet discharged as a dependence obligation); defects D11 and M2 repaired",
+                technique="runtime contracts on the real functions, exhaustive over the installed libraries' dtype set (bounded stand-in)"),
     "C09": dict(category="exploration", enabled=True,
                 text="Bounded: (training, follow-up) pairs over kind changes, lost levels and unseen levels, for factors alone and in interactions, three storage dtypes x three outputs (exhaustive over the stated scenario grid) plus seeded random pairs; oracle from the statement (FactorEncodingError / all-zero columns / DataMismatchWarning and unchanged columns).",
                 note="bounded stand-in; depends on the fix commit pooling encoder_state (recorded as fixed in known_findings.json)",
